@@ -184,6 +184,15 @@ class S:
             return float(self.e)
         raise TypeError("symbolic value forced to a machine float: %s" % self.e)
 
+    def astype(self, dtype, *a, **k):
+        """NumPy scalars have astype; an element taken from an object array is this S"""
+        try:
+            if _np.issubdtype(_np.dtype(dtype), _np.integer):
+                return _np.int64(int(self))
+        except TypeError:
+            pass
+        return self
+
     def __repr__(self):
         return "S(%s)" % self.e
 
